@@ -8,6 +8,7 @@ package props
 
 import (
 	"encoding/json"
+	"errors"
 	"fmt"
 	"strconv"
 	"strings"
@@ -425,6 +426,151 @@ func init() {
 			var cs c17ValCase
 			json.Unmarshal(raw, &cs)
 			return c17ObsPos(lib.Validate(cs.Spec, cs.Doc))
+		}},
+	})
+}
+
+// ---- errors located inside added types ----
+
+type c17TypeCase struct {
+	Spec  lib.Spec `json:"spec"`
+	Owner string   `json:"owner"`
+}
+
+// c17TypeRun: one planted check-time fault (declared type differs from the example's kind) at a
+// random scalar node of the root or of an added type of a generated type graph (allOf chains
+// included, so the faulty node may be reached through inheritance first). The error must refer
+// to the text that owns the node (file name = owner, position = offset of the node inside that
+// text) and must render without panicking.
+func c17TypeRun(c *mon.Ctx, i int) {
+	_, _, per := c17PosSizes(c.Tier)
+	r := c.Rng(173)
+	for k := 0; k < per; k++ {
+		s := gen.Graph(r, 6)
+		if k%3 == 0 {
+			// inheritance with the child sorted BEFORE its parent (types are checked in name order):
+			// the faulty node is first met as an inherited property of the child
+			parent := model.Obj(model.P("pad", model.Str("some padding so that offsets differ")), model.P("inner", gen.Shape(r, gen.ShapeOpts{MaxDepth: 2, MaxWidth: 3})), model.P("leaf", model.Int("5")))
+			parent.Walk(func(n *model.Node) { n.Rules = nil })
+			s = &model.Schema{
+				Root: mon.Pick(r, []*model.Node{model.Ref("@achild"), model.Obj(model.P("k", model.Ref("@achild"))), model.Arr(model.Ref("@achild"), model.Ref("@zparent"))}),
+				Types: []*model.TypeDef{
+					{Name: "@achild", Root: model.Obj(model.P("own", model.Int("1"))).With(model.RAllOf("@zparent"))},
+					{Name: "@zparent", Root: parent},
+				},
+			}
+		}
+		if !buildSchema(specOf(s, model.Style{})).ok {
+			c.Count("type positions: generated graph rejected by Check (skipped)", 1)
+			continue
+		}
+		// candidate nodes: scalars without type / or / enum rules, with their owner
+		type cand struct {
+			owner string
+			root  *model.Node
+			n     *model.Node
+		}
+		var cands []cand
+		collect := func(owner string, root *model.Node) {
+			if root == nil || root.IsScalar() {
+				// scalar-rooted types are referenced by {type: "@T"} / or-lists on literal examples:
+				// a fault planted there also invalidates those examples (two faults, no unique position)
+				return
+			}
+			root.Walk(func(n *model.Node) {
+				if n.IsScalar() && n.Kind != model.KNull && n.Rule("type") == nil && n.Rule("or") == nil && n.Rule("enum") == nil && n.Rule("precision") == nil {
+					cands = append(cands, cand{owner, root, n})
+				}
+			})
+		}
+		collect("root", s.Root)
+		for _, t := range s.Types {
+			collect(t.Name, t.Root)
+		}
+		if len(cands) == 0 {
+			c.Count("type positions: no candidate node (skipped)", 1)
+			continue
+		}
+		cd := cands[r.Intn(len(cands))]
+		// a check-time fault (found by the checker walking the compiled nodes, inherited ones
+		// included), or - one time in four - a load-time fault (found when the type is added)
+		switch {
+		case r.Chance(1, 4):
+			wrong := "string"
+			if cd.n.Kind == model.KString {
+				wrong = "integer"
+			}
+			cd.n.Rules = append(cd.n.Rules, model.RStr("type", wrong))
+		case cd.n.Kind == model.KInteger || cd.n.Kind == model.KFloat:
+			if cd.n.Rule("min") != nil || cd.n.Rule("max") != nil {
+				continue
+			}
+			cd.n.Rules = append(cd.n.Rules, model.RNum("min", "99999999999999999999999"))
+		case cd.n.Kind == model.KString:
+			if cd.n.Rule("regex") != nil || len(cd.n.Rules) > 0 {
+				continue
+			}
+			cd.n.Rules = append(cd.n.Rules, model.RStr("regex", "^never matches \\x00$"))
+		default:
+			cd.n.Rules = append(cd.n.Rules, model.REnum(`"other"`, "12"))
+		}
+		sp := specOf(s, model.Style{}) // renders every text: positions are those of the owner's text
+		want := cd.n.Pos
+		// the fault surfaces when the type is added (it is loaded then) or when the root is checked
+		sch, obs := lib.Build(sp)
+		if obs.OK {
+			obs = lib.Safe(sch.Check)
+		} else {
+			c.Count("type positions: fault reported by AddType", 1)
+		}
+		c.Eval(1)
+		c.Count("type positions compared (fault in "+map[bool]string{true: "the root", false: "an added type"}[cd.owner == "root"]+")", 1)
+		c.Distinct(sp.Text + "\x00" + cd.owner + fmt.Sprint(want))
+		got := c17TypeObserve(obs)
+		exp := fmt.Sprintf("reject at %d in %s, renders", want, cd.owner)
+		if got != exp {
+			c.Violate("type-pos", c17TypeCase{sp, cd.owner}, exp, got, "a Check error located inside "+cd.owner+" does not refer to the owner's text and offset, or cannot be rendered")
+		}
+	}
+}
+
+func c17TypeObserve(obs lib.Obs) string {
+	switch {
+	case obs.Panic != "":
+		return obs.String()
+	case obs.OK:
+		return "accept"
+	}
+	file := ""
+	var f interface{ Filename() string }
+	if errors.As(obs.Err, &f) {
+		file = f.Filename()
+	}
+	render := "renders"
+	func() {
+		defer func() {
+			if rec := recover(); rec != nil {
+				render = fmt.Sprintf("Error() panics: %v", rec)
+			}
+		}()
+		_ = obs.Err.Error()
+	}()
+	return fmt.Sprintf("reject at %d in %s, %s", obs.Pos, file, render)
+}
+
+func init() {
+	c17AddPart(c17Part{
+		name:  "positions inside added types",
+		units: func(tier string) int { _, b, _ := c17PosSizes(tier); return b / 4 },
+		run:   c17TypeRun,
+		replay: map[string]func(json.RawMessage) string{"type-pos": func(raw json.RawMessage) string {
+			var cs c17TypeCase
+			json.Unmarshal(raw, &cs)
+			sch, bo := lib.Build(cs.Spec)
+			if !bo.OK {
+				return c17TypeObserve(bo)
+			}
+			return c17TypeObserve(lib.Safe(sch.Check))
 		}},
 	})
 }
